@@ -7,11 +7,12 @@ Harness:  harness/h_msafile.c (real readers, ASan+UBSan+LSan, memory / file / sl
 import os, re
 from vlib.engine import Prop, Failure
 from props import msagen as G
+from props import c01_autogen as AUTOGEN
 
 MODELLED = ["afa", "a2m", "clustal", "clustallike", "psiblast", "phylip", "phylips", "selex", "stockholm", "pfam"]                         # formats whose reader exists in the Lean model (text + digital, declared format)
 MODELLED_ABC = ["text", "amino", "dna", "rna"]
 ALL_FORMATS = G.FORMATS
-UNMODELLED = [f for f in ALL_FORMATS if f not in MODELLED] + ["auto(format autodetection: esl_msafile_GuessFileFormat, msafile_check_selex, esl_msafile_phylip_CheckFileFormat)", "guess(alphabet autodetection: esl_msafile_*_GuessAlphabet, esl_abc_GuessAlphabet)"]
+UNMODELLED = [f for f in ALL_FORMATS if f not in MODELLED]    # format autodetection and alphabet guessing are modelled (Msafile/Guess.lean); not reachable from the harness: the ".gz" suffix branch of esl_msafile_GuessFileFormat (esl_buffer_Open pipes such files through gzip)
 
 STABLE_ANCHOR_KEY = "C01:selex-stream:stable-anchor-uaf"
 LEAK_KEY = None
@@ -43,7 +44,10 @@ class C01(Prop):
         "phylipConfigs_valid", "phylip_total", "phylip_total_bytes", "phylip_no_fault", "phylip_eformat_has_message", "phylip_ok_wellformed",
         "phylip_read_all_total",
         "selexConfigs_valid", "selex_total", "selex_no_fault", "selex_eformat_has_message", "selex_ok_wellformed", "selex_read_all_total",
-        "stoConfigs_valid", "stockholm_total", "stockholm_total_rest", "stockholm_no_fault", "stockholm_eformat_has_message", "stockholm_ok_wellformed")] + [
+        "stoConfigs_valid", "stockholm_total", "stockholm_total_rest", "stockholm_no_fault", "stockholm_eformat_has_message", "stockholm_ok_wellformed",
+        "cfgOf_valid", "opened_cfg_valid", "opened_read_good", "guess_no_fault", "open_total", "auto_total", "open_status_documented")] + [
+        "EaselModel.Msafile.guessFormat_no_fault", "EaselModel.Msafile.guessAlphabet_no_fault", "EaselModel.Msafile.checkSeqUnknown_no_fault",
+        "EaselModel.Msafile.openModel_no_fault", "EaselModel.Msafile.phylipReadW_good",
         "EaselModel.Msafile.stockholmRead_good", "EaselModel.Msafile.stockholmRead_nofault",
         "EaselModel.Msafile.phylipRead_good", "EaselModel.Msafile.selexRead_good",
         "EaselModel.Msafile.afaRead_good", "EaselModel.Msafile.a2mRead_good", "EaselModel.Msafile.clustalRead_good",
@@ -51,8 +55,13 @@ class C01(Prop):
     claimed = True
     technique = ("Lean 4 proof (totality, fault-freedom and well-formedness of an executable line-by-line model of the alignment readers, bounds-checked "
                  "auxiliary arrays) + exact differential correspondence of the model with the ASan/UBSan/LSan-built readers + property monitors on all ten formats")
-    level_text = ("PARTIAL (autodetection and alphabet guessing are not in the model). Theorems (no size bound, every byte string, text mode and digital mode with "
-                  "amino/DNA/RNA alphabets whose tables are regenerated from the C code each run) for ALL TEN declared formats - aligned FASTA, A2M (incl. padding), "
+    level_text = ("FULL over the model (declared format or autodetection, text mode or digital mode with a supplied or guessed alphabet). Theorems (no size bound, every byte string, text mode and digital mode with "
+                  "amino/DNA/RNA alphabets whose tables are regenerated from the C code each run) for the OPEN PATH msafile_OpenBuffer (openModel: esl_msafile_GuessFileFormat with its suffix table and first-line rules, "
+                  "msafile_check_selex, esl_msafile_phylip_CheckFileFormat = phylip_check_interleaved + collate_colcodes + deduce_namewidth, phylip_check_sequential_known, "
+                  "phylip_check_sequential_unknown with rth[] and the returned name width that then configures the PHYLIP reader; esl_msafile_GuessAlphabet = the seven per-format "
+                  "line scanners with the 500/5000/50000 early stops + esl_abc_GuessAlphabet with exact 50*d <= n arithmetic; esl_alphabet_Create + per-format SetInmap): the open path "
+                  "answers ok / enoformat / enoalphabet and never faults (ct[] and p[w]/p[i<w] accesses bounds-checked), enoformat only under autodetection, enoalphabet only under guessing, "
+                  "every configuration it can build (10 formats x text/RNA/DNA/amino) is valid and every read of the resolved reader (PHYLIP: with the autodetected name width) is good; and for ALL TEN declared formats - aligned FASTA, A2M (incl. padding), "
                   "Clustal, Clustal-like, PSI-BLAST, PHYLIP interleaved and sequential (incl. header parsing and pushed-back lines), SELEX, Stockholm and Pfam (block "
                   "invariant over sqlen/sslen/salen/pplen/ogc_len/ogr_len/bi/npb): one esl_msafile_Read returns ok / eof / eformat-with-message, the bounds-checked "
                   "line-by-line model never faults (every auxiliary array carries the allocation size the C code computes) and never raises an internal exception, and an "
@@ -62,15 +71,17 @@ class C01(Prop):
                   "Stockholm weights/cut-offs masked). All formats + autodetection + alphabet guessing are additionally exercised on the real ASan/UBSan/LSan-built "
                   "readers with property monitors (status set, message on eformat, esl_msa_Validate + independent field-length/sentinel/weight checks on every field, "
                   "per-operation leak check, no ESL_EXCEPTION, identical result from memory / file / slurped / mmap / small-page stream sources).")
-    level_note = ("Format autodetection (esl_msafile_GuessFileFormat, msafile_check_selex, PHYLIP CheckFileFormat) and alphabet guessing are covered by the monitors "
-                  "only - support, not proof. Trusted: Lean kernel + propext/Classical.choice/Quot.sound; fidelity of the hand models is checked (not proved) by the "
+    level_note = ("Format autodetection and alphabet guessing are in the model and in the theorems (AUTODETECT section of Props/C01.lean); the 0.02*n double comparisons of esl_abc_GuessAlphabet are "
+                  "modelled as exact integer tests 50*d <= n (equal to the binary64 comparison for every n < 2^50; confirmed on every generated case); the '.gz' suffix branch of "
+                  "esl_msafile_GuessFileFormat is modelled but cannot be driven through the harness (esl_buffer_Open pipes such files through gzip). Trusted: Lean kernel + propext/Classical.choice/Quot.sound; fidelity of the hand models is checked (not proved) by the "
                   "differential run; ESL_BUFFER's refinement to the abstract line reader is property C05 (SELEX line pointers are abstracted to line contents); keyhash "
                   "lookups are abstracted to first-index-by-name (C19); allocation never fails; leaks are outside the model (LeakSanitizer per operation). "
                   "Known finding C01:selex-stream:stable-anchor-uaf (shared with C05): SELEX / autodetect inputs on stream and file-mode sources are kept below one page.")
     diverge_is_violation = False
     quick_budget_s = 75
     thorough_budget_s = 900
-    trusted_base = ["hand model of esl_msafile_afa.c, esl_msafile_a2m.c (incl. a2m_padding_*), esl_msafile_clustal.c, esl_msafile_psiblast.c, esl_msafile_phylip.c (interleaved + sequential, esl_mem_strtoi32 header), esl_msafile_selex.c (block reader, lpos/rpos, annotation lines; line pointers abstracted), esl_msafile_stockholm.c (ESL_STOCKHOLM_PARSEDATA, the six line parsers, block invariant over sqlen/sslen/salen/pplen/ogc_len/ogr_len/bi/npb; keyhash lookups abstracted to first-index-by-name; numeric payload of weights and cut-offs not modelled, only accept/reject and set/unset) readers (+ easel.c esl_strmapcat, esl_alphabet.c esl_abc_dsqcat, esl_mem.c esl_memtok/esl_memspn, esl_msa.c setters) "
+    trusted_base = ["hand model of the open path of esl_msafile.c (msafile_OpenBuffer, esl_msafile_GuessFileFormat, msafile_check_selex, esl_msafile_GuessAlphabet), esl_msafile_phylip.c (CheckFileFormat and its five helpers), "
+                    "the seven esl_msafile_*_GuessAlphabet, esl_alphabet.c esl_abc_GuessAlphabet, easel.c esl_file_Extension; hand model of esl_msafile_afa.c, esl_msafile_a2m.c (incl. a2m_padding_*), esl_msafile_clustal.c, esl_msafile_psiblast.c, esl_msafile_phylip.c (interleaved + sequential, esl_mem_strtoi32 header), esl_msafile_selex.c (block reader, lpos/rpos, annotation lines; line pointers abstracted), esl_msafile_stockholm.c (ESL_STOCKHOLM_PARSEDATA, the six line parsers, block invariant over sqlen/sslen/salen/pplen/ogc_len/ogr_len/bi/npb; keyhash lookups abstracted to first-index-by-name; numeric payload of weights and cut-offs not modelled, only accept/reject and set/unset) readers (+ easel.c esl_strmapcat, esl_alphabet.c esl_abc_dsqcat, esl_mem.c esl_memtok/esl_memspn, esl_msa.c setters) "
                     "tied by exact differential run (h_msafile.c, ASan+UBSan+LSan build of the working tree)",
                     "abstract line reader (split at LF, one CR stripped before LF): ESL_BUFFER's refinement to it is property C05, assumed here and re-checked "
                     "by running every input through memory, file, slurped-file, mmap and small-page stream sources and demanding identical results",
@@ -78,7 +89,7 @@ class C01(Prop):
     assumptions = ["allocation never fails (eslEMEM paths not modelled)",
                    "C locale ctype (isspace/isgraph/isalpha on bytes 0..127; bytes >= 0x80 are not space/graph/alpha)",
                    "leaks are outside the model: LeakSanitizer per operation in the harness is support, not proof",
-                   "alignment sizes fit C int / int64_t (inputs explored up to 64 KiB)"]
+                   "alignment sizes fit C int / int64_t (inputs explored up to 64 KiB); residue counts of the alphabet guessers fit int (x = ct[...] is an int) and n < 2^50 (0.02*n exact enough)"]
     rule = ("cases = (bytes, format selection, alphabet mode, input source, page size); non-trivial = at least one alignment returned with eslOK "
             "or a format error raised after at least one parsed line; distinct by full output trace (status sequence + complete MSA dump)")
 
@@ -121,6 +132,10 @@ class C01(Prop):
         add("sto-gs-unseen-name-before", b"# STOCKHOLM 1.0\n#=GS seq2 WT 1.0\nseq1 ACGT\n//\n", "stockholm", "dna")
         add("sto-gs-unseen-name-inside", b"# STOCKHOLM 1.0\nseq1 ACDEF\n#=GS seq2 AC foo\n//\n", "pfam")
         add("empty", b"", "auto", "guess"); add("empty-afa", b"", "afa", "text"); add("nul", b"\x00", "auto")
+        # ef67b6d: phylip_check_sequential_unknown() tested p[0..w-1] on the LAST continuation line (heap over-read, visible on exact-size buffers)
+        for src in ("allfile", "mmap", "mem"):
+            add("phylip-autodetect-lastline-" + src, b"1 2\nname AC\n\x0c", "auto", "text", src)
+            add("phylip-autodetect-lastline2-" + src, b"2 3\nabcdefgh  ACG\n\x0b\nabcdefgh  ACG\n\x0c", "auto", "guess", src)
         return c
 
     def _config(self, rng, own_fmt, n):
@@ -202,6 +217,17 @@ class C01(Prop):
         # 4. raw bytes
         for _ in range(n_raw):
             emit("raw", G.raw_bytes(rng), rng.choice(ALL_FORMATS + [None]))
+        # 5. the open path at its decision boundaries (props/c01_autogen.py): residue counts around 10 / 500 / 5000 / 50000, compositions
+        #    around the 2 % thresholds, PHYLIP variants / name widths / headers, SELEX-looking text, suffixes, first-line rules
+        for data, fmt, abc, src, sfx in AUTOGEN.build(rng, 0.03 if quick else 0.4):
+            ops = [self._op(data, fmt, abc, src, 0, sfx if src != "mem" else None)]
+            if src != "mem" and sfx is None: ops.append(self._op(data, fmt, abc, "mem", 0))
+            stats["kinds"]["open"] = stats["kinds"].get("open", 0) + 1
+            stats["formats"][fmt] = stats["formats"].get(fmt, 0) + 1
+            stats["abc"][abc] = stats["abc"].get(abc, 0) + 1
+            stats["sources"][src] = stats["sources"].get(src, 0) + 1
+            stats["bytes_total"] += len(data); stats["max_len"] = max(stats["max_len"], len(data))
+            out.append({"name": "open%d" % len(out), "ops": ops, "sfx": sfx})
         return out
 
     # ------------------------------------------------------------------------------------------
@@ -215,9 +241,15 @@ class C01(Prop):
             a = self.canonical(impl_out[i]) if i < len(impl_out) else "<missing>"
             b = self.canonical(model_out[i]) if i < len(model_out) else "<missing>"
             if b == "unmodelled": continue
-            a = a.replace(" leak", "")
+            a = self._open_token(a.replace(" leak", "")); b = self._open_token(b)
             if a != b and self._mask(a) != self._mask(b): return (i, self._mask(a)[:3000], self._mask(b)[:3000])
         return None
+
+    @staticmethod
+    def _open_token(line):
+        """`open=enoformat:msg|noafp|nomsg` == model `open=enoformat` (esl_msafile_OpenMem returns no afp on enoformat, so the
+        message is unobservable there; whether a message exists is the monitor's business, not the model's)"""
+        return re.sub(r"^open=(\w+):\w+", r"open=\1", line)
 
     @staticmethod
     def _mask(line):
@@ -287,7 +319,7 @@ class C01(Prop):
 
     def extra_evidence(self, ctx):
         return {"modelled_formats": MODELLED, "unmodelled_formats": UNMODELLED,
-                "claim": "partial: theorems cover the modelled formats; the other formats are covered by monitors on the real readers only (support, not proof)",
+                "claim": "theorems cover all ten formats, format autodetection and alphabet guessing (open path + readers); leaks, allocation failure and the gzip pipe are outside the model",
                 "input_distribution": ctx.stats.get("generator", {})}
 
 
